@@ -58,13 +58,16 @@ def build_vh(race=False):
 
 
 _tlc_n = 0
+import threading
+_tlc_lock = threading.Lock()
 
 
 def tlc(spec_dir, module, cfg_text, env=None, workers=8, timeout=600, extra=None, files=None):
     """Run TLC on spec_dir/module.tla with the given cfg text in a private scratch copy."""
     global _tlc_n
-    _tlc_n += 1
-    d = os.path.join(scratch(), "tlc%d" % _tlc_n)
+    with _tlc_lock:
+        _tlc_n += 1
+        d = os.path.join(scratch(), "tlc%d" % _tlc_n)
     os.makedirs(d)
     for root in [os.path.join(VERIF, "spec", "lib"), spec_dir]:
         for f in os.listdir(root):
